@@ -5,7 +5,7 @@ use crate::c10::*;
 
 /// Test generated for harness `c10::c10_w0_kernels_vec_n2` 
 ///
-/// Check for `assertion`: ""ts_vmin: every output slot written""
+/// Check for `assertion`: ""ts_vregx_resid_mean: every output slot written""
 ///
 /// # Warning
 ///
@@ -19,7 +19,7 @@ use crate::c10::*;
 /// logic.
 
 #[test]
-fn kani_concrete_playback_c10_w0_kernels_vec_n2_14768630225773118795() {
+fn kani_concrete_playback_c10_w0_kernels_vec_n2_4624583475394349740() {
     let concrete_vals: Vec<Vec<u8>> = vec![
         // 0
         vec![0],
@@ -28,121 +28,17 @@ fn kani_concrete_playback_c10_w0_kernels_vec_n2_14768630225773118795() {
         // 0
         vec![0],
         // 0
-        vec![0, 0, 0, 0],
+        vec![0],
         // 0
         vec![0],
         // 0
-        vec![0, 0, 0, 0],
-        // 0
         vec![0],
-        // 0
-        vec![0, 0, 0, 0],
-        // 0
-        vec![0],
-        // 0
-        vec![0, 0, 0, 0],
         // 0ul
         vec![0, 0, 0, 0, 0, 0, 0, 0],
         // 0
         vec![0],
-        // 0
-        vec![0],
-    ];
-    kani::concrete_playback_run(concrete_vals, c10_w0_kernels_vec_n2);
-}
-
-/// Test generated for harness `c10::c10_w0_kernels_vec_n2` 
-///
-/// Check for `assertion`: ""ts_vmax: every output slot written""
-///
-/// # Warning
-///
-/// Concrete playback tests combined with stubs or contracts is highly
-/// experimental, and subject to change.
-///
-/// The original harness has stubs which are not applied to this test.
-/// This may cause a mismatch of non-deterministic values if the stub
-/// creates any non-deterministic value.
-/// The execution path may also differ, which can be used to refine the stub
-/// logic.
-
-#[test]
-fn kani_concrete_playback_c10_w0_kernels_vec_n2_10316988678155249812() {
-    let concrete_vals: Vec<Vec<u8>> = vec![
-        // 0
-        vec![0],
-        // 0
-        vec![0],
-        // 0
-        vec![0],
-        // 0
-        vec![0, 0, 0, 0],
-        // 0
-        vec![0],
-        // 0
-        vec![0, 0, 0, 0],
-        // 0
-        vec![0],
-        // 0
-        vec![0, 0, 0, 0],
-        // 0
-        vec![0],
-        // 0
-        vec![0, 0, 0, 0],
-        // 0ul
-        vec![0, 0, 0, 0, 0, 0, 0, 0],
-        // 0
-        vec![0],
-        // 1
-        vec![1],
-    ];
-    kani::concrete_playback_run(concrete_vals, c10_w0_kernels_vec_n2);
-}
-
-/// Test generated for harness `c10::c10_w0_kernels_vec_n2` 
-///
-/// Check for `assertion`: ""ts_vargmin: every output slot written""
-///
-/// # Warning
-///
-/// Concrete playback tests combined with stubs or contracts is highly
-/// experimental, and subject to change.
-///
-/// The original harness has stubs which are not applied to this test.
-/// This may cause a mismatch of non-deterministic values if the stub
-/// creates any non-deterministic value.
-/// The execution path may also differ, which can be used to refine the stub
-/// logic.
-
-#[test]
-fn kani_concrete_playback_c10_w0_kernels_vec_n2_6351729451893733795() {
-    let concrete_vals: Vec<Vec<u8>> = vec![
-        // 0
-        vec![0],
-        // 0
-        vec![0],
-        // 0
-        vec![0],
-        // 0
-        vec![0, 0, 0, 0],
-        // 0
-        vec![0],
-        // 0
-        vec![0, 0, 0, 0],
-        // 0
-        vec![0],
-        // 0
-        vec![0, 0, 0, 0],
-        // 0
-        vec![0],
-        // 0
-        vec![0, 0, 0, 0],
-        // 0ul
-        vec![0, 0, 0, 0, 0, 0, 0, 0],
-        // 0
-        vec![0],
-        // 2
-        vec![2],
+        // 6
+        vec![6],
     ];
     kani::concrete_playback_run(concrete_vals, c10_w0_kernels_vec_n2);
 }
@@ -163,7 +59,7 @@ fn kani_concrete_playback_c10_w0_kernels_vec_n2_6351729451893733795() {
 /// logic.
 
 #[test]
-fn kani_concrete_playback_c10_w0_kernels_vec_n2_11072589330566598403() {
+fn kani_concrete_playback_c10_w0_kernels_vec_n2_293579557810759936() {
     let concrete_vals: Vec<Vec<u8>> = vec![
         // 0
         vec![0],
@@ -172,32 +68,24 @@ fn kani_concrete_playback_c10_w0_kernels_vec_n2_11072589330566598403() {
         // 0
         vec![0],
         // 0
-        vec![0, 0, 0, 0],
+        vec![0],
         // 0
         vec![0],
         // 0
-        vec![0, 0, 0, 0],
-        // 0
         vec![0],
-        // 0
-        vec![0, 0, 0, 0],
-        // 0
-        vec![0],
-        // 0
-        vec![0, 0, 0, 0],
         // 0ul
         vec![0, 0, 0, 0, 0, 0, 0, 0],
         // 0
         vec![0],
-        // 4
-        vec![4],
+        // 5
+        vec![5],
     ];
     kani::concrete_playback_run(concrete_vals, c10_w0_kernels_vec_n2);
 }
 
 /// Test generated for harness `c10::c10_w0_kernels_vec_n2` 
 ///
-/// Check for `assertion`: ""ts_vregx_resid_mean: every output slot written""
+/// Check for `assertion`: ""ts_vargmax: every output slot written""
 ///
 /// # Warning
 ///
@@ -211,7 +99,7 @@ fn kani_concrete_playback_c10_w0_kernels_vec_n2_11072589330566598403() {
 /// logic.
 
 #[test]
-fn kani_concrete_playback_c10_w0_kernels_vec_n2_10238727989955404646() {
+fn kani_concrete_playback_c10_w0_kernels_vec_n2_2996444275664490113() {
     let concrete_vals: Vec<Vec<u8>> = vec![
         // 0
         vec![0],
@@ -220,25 +108,57 @@ fn kani_concrete_playback_c10_w0_kernels_vec_n2_10238727989955404646() {
         // 0
         vec![0],
         // 0
-        vec![0, 0, 0, 0],
+        vec![0],
         // 0
         vec![0],
         // 0
-        vec![0, 0, 0, 0],
-        // 0
         vec![0],
-        // 0
-        vec![0, 0, 0, 0],
-        // 0
-        vec![0],
-        // 0
-        vec![0, 0, 0, 0],
         // 0ul
         vec![0, 0, 0, 0, 0, 0, 0, 0],
         // 0
         vec![0],
-        // 5
-        vec![5],
+        // 3
+        vec![3],
+    ];
+    kani::concrete_playback_run(concrete_vals, c10_w0_kernels_vec_n2);
+}
+
+/// Test generated for harness `c10::c10_w0_kernels_vec_n2` 
+///
+/// Check for `assertion`: ""ts_vmin: every output slot written""
+///
+/// # Warning
+///
+/// Concrete playback tests combined with stubs or contracts is highly
+/// experimental, and subject to change.
+///
+/// The original harness has stubs which are not applied to this test.
+/// This may cause a mismatch of non-deterministic values if the stub
+/// creates any non-deterministic value.
+/// The execution path may also differ, which can be used to refine the stub
+/// logic.
+
+#[test]
+fn kani_concrete_playback_c10_w0_kernels_vec_n2_1666748175245777184() {
+    let concrete_vals: Vec<Vec<u8>> = vec![
+        // 0
+        vec![0],
+        // 0
+        vec![0],
+        // 0
+        vec![0],
+        // 0
+        vec![0],
+        // 0
+        vec![0],
+        // 0
+        vec![0],
+        // 0ul
+        vec![0, 0, 0, 0, 0, 0, 0, 0],
+        // 0
+        vec![0],
+        // 0
+        vec![0],
     ];
     kani::concrete_playback_run(concrete_vals, c10_w0_kernels_vec_n2);
 }
@@ -259,7 +179,7 @@ fn kani_concrete_playback_c10_w0_kernels_vec_n2_10238727989955404646() {
 /// logic.
 
 #[test]
-fn kani_concrete_playback_c10_w0_kernels_vec_n2_17326176231606389295() {
+fn kani_concrete_playback_c10_w0_kernels_vec_n2_4628911148827062515() {
     let concrete_vals: Vec<Vec<u8>> = vec![
         // 1
         vec![1],
@@ -281,15 +201,15 @@ fn kani_concrete_playback_c10_w0_kernels_vec_n2_17326176231606389295() {
         vec![4, 0, 0, 0, 0, 0, 0, 0],
         // 0
         vec![0],
-        // 7
-        vec![7],
+        // 8
+        vec![8],
     ];
     kani::concrete_playback_run(concrete_vals, c10_w0_kernels_vec_n2);
 }
 
 /// Test generated for harness `c10::c10_w0_kernels_vec_n2` 
 ///
-/// Check for `assertion`: ""ts_vargmax: every output slot written""
+/// Check for `assertion`: ""ts_vmax: every output slot written""
 ///
 /// # Warning
 ///
@@ -303,7 +223,7 @@ fn kani_concrete_playback_c10_w0_kernels_vec_n2_17326176231606389295() {
 /// logic.
 
 #[test]
-fn kani_concrete_playback_c10_w0_kernels_vec_n2_9461975898164759295() {
+fn kani_concrete_playback_c10_w0_kernels_vec_n2_11789063242589858262() {
     let concrete_vals: Vec<Vec<u8>> = vec![
         // 0
         vec![0],
@@ -312,25 +232,17 @@ fn kani_concrete_playback_c10_w0_kernels_vec_n2_9461975898164759295() {
         // 0
         vec![0],
         // 0
-        vec![0, 0, 0, 0],
+        vec![0],
         // 0
         vec![0],
         // 0
-        vec![0, 0, 0, 0],
-        // 0
         vec![0],
-        // 0
-        vec![0, 0, 0, 0],
-        // 0
-        vec![0],
-        // 0
-        vec![0, 0, 0, 0],
         // 0ul
         vec![0, 0, 0, 0, 0, 0, 0, 0],
         // 0
         vec![0],
-        // 3
-        vec![3],
+        // 1
+        vec![1],
     ];
     kani::concrete_playback_run(concrete_vals, c10_w0_kernels_vec_n2);
 }
@@ -351,7 +263,7 @@ fn kani_concrete_playback_c10_w0_kernels_vec_n2_9461975898164759295() {
 /// logic.
 
 #[test]
-fn kani_concrete_playback_c10_w0_kernels_vec_n2_5395590413393445685() {
+fn kani_concrete_playback_c10_w0_kernels_vec_n2_16585028000495761990() {
     let concrete_vals: Vec<Vec<u8>> = vec![
         // 0
         vec![0],
@@ -360,25 +272,101 @@ fn kani_concrete_playback_c10_w0_kernels_vec_n2_5395590413393445685() {
         // 0
         vec![0],
         // 0
-        vec![0, 0, 0, 0],
+        vec![0],
         // 0
         vec![0],
         // 0
-        vec![0, 0, 0, 0],
-        // 0
         vec![0],
-        // 0
-        vec![0, 0, 0, 0],
-        // 0
-        vec![0],
-        // 0
-        vec![0, 0, 0, 0],
         // 0ul
         vec![0, 0, 0, 0, 0, 0, 0, 0],
         // 0
         vec![0],
-        // 6
-        vec![6],
+        // 7
+        vec![7],
+    ];
+    kani::concrete_playback_run(concrete_vals, c10_w0_kernels_vec_n2);
+}
+
+/// Test generated for harness `c10::c10_w0_kernels_vec_n2` 
+///
+/// Check for `assertion`: ""ts_vrank: every output slot written""
+///
+/// # Warning
+///
+/// Concrete playback tests combined with stubs or contracts is highly
+/// experimental, and subject to change.
+///
+/// The original harness has stubs which are not applied to this test.
+/// This may cause a mismatch of non-deterministic values if the stub
+/// creates any non-deterministic value.
+/// The execution path may also differ, which can be used to refine the stub
+/// logic.
+
+#[test]
+fn kani_concrete_playback_c10_w0_kernels_vec_n2_17120887310259896199() {
+    let concrete_vals: Vec<Vec<u8>> = vec![
+        // 0
+        vec![0],
+        // 0
+        vec![0],
+        // 0
+        vec![0],
+        // 0
+        vec![0],
+        // 0
+        vec![0],
+        // 0
+        vec![0],
+        // 0ul
+        vec![0, 0, 0, 0, 0, 0, 0, 0],
+        // 0
+        vec![0],
+        // 4
+        vec![4],
+        // 0
+        vec![0],
+        // 0
+        vec![0],
+    ];
+    kani::concrete_playback_run(concrete_vals, c10_w0_kernels_vec_n2);
+}
+
+/// Test generated for harness `c10::c10_w0_kernels_vec_n2` 
+///
+/// Check for `assertion`: ""ts_vargmin: every output slot written""
+///
+/// # Warning
+///
+/// Concrete playback tests combined with stubs or contracts is highly
+/// experimental, and subject to change.
+///
+/// The original harness has stubs which are not applied to this test.
+/// This may cause a mismatch of non-deterministic values if the stub
+/// creates any non-deterministic value.
+/// The execution path may also differ, which can be used to refine the stub
+/// logic.
+
+#[test]
+fn kani_concrete_playback_c10_w0_kernels_vec_n2_18119097354352582048() {
+    let concrete_vals: Vec<Vec<u8>> = vec![
+        // 0
+        vec![0],
+        // 0
+        vec![0],
+        // 0
+        vec![0],
+        // 0
+        vec![0],
+        // 0
+        vec![0],
+        // 0
+        vec![0],
+        // 0ul
+        vec![0, 0, 0, 0, 0, 0, 0, 0],
+        // 0
+        vec![0],
+        // 2
+        vec![2],
     ];
     kani::concrete_playback_run(concrete_vals, c10_w0_kernels_vec_n2);
 }
